@@ -5,7 +5,9 @@
    callback that runs _remove_client after a client greenlet has ended (link).
 
    client states: "new" (spawned, has not reached poll yet), "idle" (blocked in poll),
-                  "busy" (holds a request), "dead" (greenlet ended, link callback not yet run). *)
+                  "busy" (holds a request), "closing" (has given its last result - or given up waiting - and is saying QUIT:
+                  still in the pool, still holding its connection; found missing when real pool executions were validated
+                  against this model, spec/Trace_PoolD.tla), "dead" (greenlet ended, link callback not yet run). *)
 EXTENDS Integers, Sequences, FiniteSets, TLC
 CONSTANTS PoolSize,       \* 0 = unbounded
           NReq, Reuse,    \* Reuse: idle_timeout is set (clients poll again after a delivery)
@@ -18,7 +20,7 @@ VARIABLES clients, queue, result, called, nextc, conns, maxconns, rq
 vars == <<clients, queue, result, called, nextc, conns, maxconns, rq>>
 Reqs == 1..NReq
 \* clients: function id -> [st, req]
-Live == {c \in DOMAIN clients : clients[c].st \in {"new", "idle", "busy"}}
+Live == {c \in DOMAIN clients : clients[c].st \in {"new", "idle", "busy", "closing"}}
 InPool == {c \in DOMAIN clients : clients[c].st # "gone"}
 Init == clients = <<>> /\ queue = <<>> /\ result = [r \in Reqs |-> 0] /\ called = {} /\ nextc = 1 /\ conns = 0 /\ maxconns = 0 /\ rq = 0
 
@@ -48,19 +50,24 @@ Deliver(c) ==
   /\ clients[c].st = "busy"
   /\ result' = [result EXCEPT ![clients[c].req] = clients[c].req]
   /\ \/ /\ Reuse /\ clients' = [clients EXCEPT ![c] = [st |-> "idle", req |-> 0]] /\ UNCHANGED conns
-     \/ /\ clients' = [clients EXCEPT ![c] = [st |-> "dead", req |-> 0]] /\ conns' = conns - 1      \* no reuse, or the connection failed
+     \/ /\ clients' = [clients EXCEPT ![c] = [st |-> "closing", req |-> 0]] /\ UNCHANGED conns      \* no reuse, or the connection failed
   /\ UNCHANGED <<queue, called, nextc, maxconns, rq>>
+\* the client's greenlet ends: connection closed
+Exit(c) ==
+  /\ clients[c].st = "closing"
+  /\ clients' = [clients EXCEPT ![c].st = "dead"]
+  /\ conns' = IF conns > 0 THEN conns - 1 ELSE 0
+  /\ UNCHANGED <<queue, result, called, nextc, maxconns, rq>>
 \* server-initiated time-out noticed before a delivery: the request goes back to the front, the client ends
 Requeue(c) ==
   /\ clients[c].st = "busy" /\ Reuse /\ rq < MaxRequeue /\ rq' = rq + 1
   /\ queue' = <<clients[c].req>> \o queue
-  /\ clients' = [clients EXCEPT ![c] = [st |-> "dead", req |-> 0]] /\ conns' = conns - 1
+  /\ clients' = [clients EXCEPT ![c] = [st |-> "closing", req |-> 0]] /\ UNCHANGED conns
   /\ UNCHANGED <<result, called, nextc, maxconns>>
 IdleExpire(c) ==
   /\ clients[c].st = "idle" /\ Reuse
-  /\ clients' = [clients EXCEPT ![c].st = "dead"]
-  /\ conns' = IF conns > 0 THEN conns - 1 ELSE 0
-  /\ UNCHANGED <<queue, result, called, nextc, maxconns, rq>>
+  /\ clients' = [clients EXCEPT ![c].st = "closing"]
+  /\ UNCHANGED <<queue, result, called, nextc, maxconns, rq, conns>>
 \* link callback: _remove_client
 Unlink(c) ==
   /\ clients[c].st = "dead"
@@ -69,15 +76,15 @@ Unlink(c) ==
      IN clients' = IF queue # <<>> /\ empty /\ ~KF_NoRespawn THEN AddClient(cs) ELSE cs
   /\ UNCHANGED <<queue, result, called, nextc, conns, maxconns, rq>>
 Next == \/ \E r \in Reqs : Attempt(r)
-        \/ \E c \in DOMAIN clients : Poll(c) \/ Deliver(c) \/ Requeue(c) \/ IdleExpire(c) \/ Unlink(c)
+        \/ \E c \in DOMAIN clients : Poll(c) \/ Deliver(c) \/ Requeue(c) \/ IdleExpire(c) \/ Exit(c) \/ Unlink(c)
 Spec == Init /\ [][Next]_vars
-FairSpec == Spec /\ WF_vars(\E c \in DOMAIN clients : Poll(c) \/ Deliver(c) \/ IdleExpire(c) \/ Unlink(c))
+FairSpec == Spec /\ WF_vars(\E c \in DOMAIN clients : Poll(c) \/ Deliver(c) \/ IdleExpire(c) \/ Exit(c) \/ Unlink(c))
                  /\ \A r \in Reqs : WF_vars(Attempt(r))
 
 C19_Bound == PoolSize # 0 => Cardinality(InPool) <= PoolSize /\ conns <= PoolSize
 C19_OwnResult == \A r \in Reqs : result[r] \in {0, r}
 \* nothing is left waiting while no client exists that could serve it
-C19_NoStranding == (queue # <<>>) => \E c \in DOMAIN clients : clients[c].st \in {"new", "idle", "busy", "dead"}
+C19_NoStranding == (queue # <<>>) => \E c \in DOMAIN clients : clients[c].st \in {"new", "idle", "busy", "closing", "dead"}
 C19_OneAtATime == \A c, d \in DOMAIN clients : (c # d /\ clients[c].st = "busy" /\ clients[d].st = "busy") => clients[c].req # clients[d].req
 C19_AllServed == <>(\A r \in Reqs : result[r] = r)
 =============================================================================
